@@ -18,6 +18,7 @@ Trees(d) ==
        Leafs \cup {N(k, "", <<a, b>>) : k \in Bin, a \in S, b \in S} \cup {N("not", "", <<a>>) : a \in S}
              \cup {N("fill", "", <<a>>) : a \in S}
 
+Lazy(a) == N("pipe", "", <<N("iter", "", <<a>>), N("consume", "", <<>>)>>)
 Plans == UNION {[1..m -> {"ok", "err"}] : m \in 0..MaxLeaves}
 \* a plan is canonical when it is exactly as long as the number of leaf executions it drives
 VARIABLES tree, plan, res, phase
@@ -47,6 +48,11 @@ PickTree ==
   /\ \/ \E t \in Top : tree' = t
      \/ \E k \in Bin, a \in Top, b \in Trees(SecondDepth) : tree' = N(k, "", <<a, b>>) \/ tree' = N(k, "", <<b, a>>)
      \/ \E a \in Top : tree' = N("not", "", <<a>>) \/ tree' = N("fill", "", <<a>>)
+     \* lazily evaluated sub-specs: Pipe(Iter(a), list) where the root target flows in unchanged
+     \/ \E a \in Trees(SecondDepth) :
+          \/ tree' = Lazy(a) \/ tree' = N("not", "", <<Lazy(a)>>)
+          \/ \E k \in {"coal", "or", "and", "switch", "dict", "pipe"}, b \in Trees(SecondDepth) :
+                tree' = N(k, "", <<Lazy(a), b>>) \/ (k # "pipe" /\ tree' = N(k, "", <<b, Lazy(a)>>))
   /\ res' = Outcome(tree', <<>>)
 \* the environment decides leaf by leaf: while the run consumed more leaf executions than the plan
 \* covers (uncovered leaves succeed), it fixes the fate of the next one
